@@ -154,8 +154,10 @@ def parse_match(text):
         except errors.MalformedAtom as e:
             if "*" not in text:
                 raise ParseError(str(e)) from e
-            # support globbed targets with version restrictions
-            return packages.AndRestriction(*parse_globbed_version(text, orig_text))
+            # support globbed targets with version restrictions; keep the slot,
+            # subslot and repo restrictions collected above
+            restrictions.extend(parse_globbed_version(text, orig_text))
+            return packages.AndRestriction(*restrictions)
 
     r = list(map(convert_glob, tsplit))
     if not r[0] and not r[1]:
